@@ -541,6 +541,8 @@ int node_always_true (parse_node_t * node) {
   return 0;
 }
 
+#define NOT_MAYBE_REAL(t) ((t) != TYPE_REAL && (t) != TYPE_ANY && (t) != TYPE_UNKNOWN && (t) != 0)
+
 int generate_conditional_branch (parse_node_t * node) {
   int branch;
 
@@ -549,9 +551,10 @@ int generate_conditional_branch (parse_node_t * node) {
    */
   if (IS_NODE (node, NODE_BINARY_OP, F_NE))
     {
-      if (IS_NODE (node->r.expr, NODE_NUMBER, 0))
+      /* not when x may be a float: 0.0 != 0 is false, but 0.0 as a condition is true */
+      if (IS_NODE (node->r.expr, NODE_NUMBER, 0) && NOT_MAYBE_REAL (node->l.expr->type))
         node = node->l.expr;
-      else if (IS_NODE (node->l.expr, NODE_NUMBER, 0))
+      else if (IS_NODE (node->l.expr, NODE_NUMBER, 0) && NOT_MAYBE_REAL (node->r.expr->type))
         node = node->r.expr;
     }
   if (IS_NODE (node, NODE_UNARY_OP, F_NOT))
